@@ -355,6 +355,18 @@ pub fn world_c18(tier: Tier, world_no: u64, mut t: Tape) -> WorldReport {
             extra.push(format!("dev:{}", env_path.to_str().unwrap()));
             extra.push("--profile".into());
             extra.push("staging".into());
+            if t.chance(1, 2) {
+                // profile names that differ only in letter case, each with its own content
+                let other: Vec<String> = lines.iter().map(|l| l.replace("=addr_test1", "=addr_test1other").replace('=', "=9")).collect();
+                let env2 = dir.join("dev2.env");
+                let _ = std::fs::write(&env2, other.join("\n") + "\n");
+                extra.push("--profile-env-file".into());
+                extra.push(format!("Dev:{}", env2.to_str().unwrap()));
+                extra.push("--profile".into());
+                extra.push("Staging".into());
+                extra.push("--profile".into());
+                extra.push(" staging".into());
+            }
             rep.fire("profiles-and-env-file");
         }
         TX3C_EXTRA.with(|e| *e.borrow_mut() = extra.clone());
